@@ -117,40 +117,63 @@ theorem C02_no_spawner_left_waiting (base : Nat) (h : History) (hn : h.NoSetSize
       obtain ⟨w, hw⟩ := List.exists_mem_of_ne_nil _ hne
       exact absurd (hi.mpend m r hr w hw) (hmap.wk m r hr v hv hvpos hG w hw)
 
-/-- **C04 / C05: nothing requested is lost.** Under the same conditions, a request that was never cancelled has finished
-*normally with nothing left*: an `apply`/`start` request has started (or skipped, where the call raised) every one of its
-`num` invocations; a map-style request has consumed its whole iterable — unless its argument iterator itself raised. -/
-theorem C04_all_invocations_at_quiescence (base : Nat) (h : History) (hn : h.NoSetSize) (hg : ∀ x ∈ h, x.admits noGac = true)
+/-- what the two theorems below share: at quiescence a request that was never cancelled has an outcome, and it is the
+normal one with nothing left — or the request is map-style and its argument iterator raised -/
+theorem quiescent_request (base : Nat) (h : History) (hn : h.NoSetSize) (hg : ∀ x ∈ h, x.admits noGac = true)
     (hidle : ((World.init base).run h).ready = []) (i : Nat) (c : Cfg) (p : Pool)
     (hc : ((World.init base).run h).cfgs[i]? = some c) (hp : ((World.init base).run h).pools[i]? = some p)
     (hsz : c.size0 = .inf ∨ ∃ n, c.size0 = .fin n ∧ 0 < n) (hall : p.AllTasksDone)
     (m : Nat) (r : Req) (hr : p.reqs[m]? = some r) (hnc : r.everCancelled = false) :
-    (r.kind = .apply → r.outcome = some .ok ∧ tasksOf p.tasks m + r.skipped = r.n0) ∧
-    (r.kind = .map → (r.outcome = some .ok ∧ r.items = [] ∧ r.pulled = r.n0) ∨
-                     r.outcome = some (.exc (.user 4))) := by
+    (r.outcome = some .ok ∧ r.remaining = 0 ∧ r.items = []) ∨ (r.kind = .map ∧ r.outcome = some (.exc (.user 4))) := by
   have hfin := World.fin_run base h hg i c p hc hp
   have hsome := C02_no_spawner_left_waiting base h hn hg hidle i c p hc hp hsz hall m r hr
   obtain ⟨o, ho⟩ := Option.isSome_iff_exists.mp hsome
+  rcases hfin.ok m r hr hnc o ho with ⟨e, a, b⟩ | ⟨a, e⟩
+  · exact Or.inl ⟨by rw [ho, e], a, b⟩
+  · exact Or.inr ⟨a, by rw [ho, e]⟩
+
+/-- **C04: no invocation is lost.** After every history without `pool_size` assignment and without `gather_and_close`, in
+every pool of positive size (or unbounded): whenever the loop is idle and user code holds nothing back, an `apply` /
+`start` request that was never cancelled has finished normally and **has started (or skipped, where the call raised) every
+one of its `num` invocations** — however long it had to wait for room, whatever else was requested, cancelled or locked
+in between. -/
+theorem C04_all_invocations_at_quiescence (base : Nat) (h : History) (hn : h.NoSetSize) (hg : ∀ x ∈ h, x.admits noGac = true)
+    (hidle : ((World.init base).run h).ready = []) (i : Nat) (c : Cfg) (p : Pool)
+    (hc : ((World.init base).run h).cfgs[i]? = some c) (hp : ((World.init base).run h).pools[i]? = some p)
+    (hsz : c.size0 = .inf ∨ ∃ n, c.size0 = .fin n ∧ 0 < n) (hall : p.AllTasksDone)
+    (m : Nat) (r : Req) (hr : p.reqs[m]? = some r) (hnc : r.everCancelled = false) (hk : r.kind = .apply) :
+    r.outcome = some .ok ∧ tasksOf p.tasks m + r.skipped = r.n0 := by
   have hacc := accAll base h i c p hc hp
   have htk := hacc.tk m r hr
-  have hrq := hacc.rq m r hr
-  have hW := World.want_run base h i c p hc hp
-  have hdone : r.frame = .done := hW.od m r hr (fun x => x) (by rw [ho]; rfl)
-  refine ⟨?_, ?_⟩
-  · intro hk
-    rcases hfin.ok m r hr hnc o ho with ⟨e, hrem, _⟩ | ⟨hk2, _⟩
-    · have := (hrq.1 hk).1
-      have h2 : ((r.created + r.skipped + r.remaining : Nat) : Int) = r.n0 + 0 := this
-      exact ⟨by rw [ho, e], by rw [htk]; omega⟩
-    · rw [hk] at hk2; cases hk2
-  · intro hk
-    rcases hfin.ok m r hr hnc o ho with ⟨e, _, hit⟩ | ⟨_, e⟩
-    · left
-      have a1 := (hrq.2 hk).1
-      simp only [Req.cnt] at a1
-      rw [hit] at a1
-      exact ⟨by rw [ho, e], hit, by simpa using a1⟩
-    · right; rw [ho, e]
+  rcases quiescent_request base h hn hg hidle i c p hc hp hsz hall m r hr hnc with ⟨e, hrem, _⟩ | ⟨hk2, _⟩
+  · have h2 : ((r.created + r.skipped + r.remaining : Nat) : Int) = r.n0 + 0 := ((hacc.rq m r hr).1 hk).1
+    exact ⟨e, by rw [htk]; omega⟩
+  · rw [hk] at hk2; cases hk2
+
+/-- **C05: the iterable is consumed to the end** (partial: what is missing is that the *last* element pulled was turned
+into a task or skipped rather than dropped — the books of a finished consumer allow one element "in hand"; the monitor
+`elements-lost` checks it on the real run). Under the same conditions a map-style request that was never cancelled has
+finished normally with **its whole iterable pulled**, every element but possibly the last one a task of the call or
+skipped — unless the argument iterator itself raised, which ends the request with that exception. -/
+theorem C05_iterable_consumed_at_quiescence_partial (base : Nat) (h : History) (hn : h.NoSetSize)
+    (hg : ∀ x ∈ h, x.admits noGac = true)
+    (hidle : ((World.init base).run h).ready = []) (i : Nat) (c : Cfg) (p : Pool)
+    (hc : ((World.init base).run h).cfgs[i]? = some c) (hp : ((World.init base).run h).pools[i]? = some p)
+    (hsz : c.size0 = .inf ∨ ∃ n, c.size0 = .fin n ∧ 0 < n) (hall : p.AllTasksDone)
+    (m : Nat) (r : Req) (hr : p.reqs[m]? = some r) (hnc : r.everCancelled = false) (hk : r.kind = .map) :
+    (r.outcome = some .ok ∧ r.items = [] ∧ r.pulled = r.n0 ∧
+      tasksOf p.tasks m + r.skipped ≤ r.n0 ∧ r.n0 ≤ tasksOf p.tasks m + r.skipped + 1) ∨
+    r.outcome = some (.exc (.user 4)) := by
+  have hacc := accAll base h i c p hc hp
+  have htk := hacc.tk m r hr
+  rcases quiescent_request base h hn hg hidle i c p hc hp hsz hall m r hr hnc with ⟨e, _, hit⟩ | ⟨_, e⟩
+  · left
+    obtain ⟨a1, a2, a3, _⟩ := (hacc.rq m r hr).2 hk
+    simp only [Req.cnt] at a1 a2 a3
+    rw [hit] at a1
+    have hpl : r.pulled = r.n0 := by simpa using a1
+    exact ⟨e, hit, hpl, by rw [htk]; omega, by rw [htk]; omega⟩
+  · exact Or.inr e
 
 theorem World.api_run (base : Nat) (h : History) (i : Nat) (c : Cfg) (p : Pool)
     (hc : ((World.init base).run h).cfgs[i]? = some c) (hp : ((World.init base).run h).pools[i]? = some p) : ApiWant p :=
@@ -229,5 +252,30 @@ theorem C13_flush_returns_at_quiescence (base : Nat) (h : History) (hn : h.NoSet
     A.outcome.isSome = true ∨ (A.frame = .waitClosed ∧ p.closed = false) :=
   C08_calls_return_at_quiescence base h hidle i c p hc hp hall
     (fun m r hr => C02_no_spawner_left_waiting base h hn hg hidle i c p hc hp hsz hall m r hr) a A hA
+
+/-! Non-vacuity: `apply num=2` on a pool of size 1, both workers released one after the other, the loop run until nothing
+is left: the premises of the quiescence theorems hold (idle, every asyncio Task done, request never cancelled), and so
+do their conclusions; and an intermediate idle state (first worker suspended on its gate, spawner waiting for room)
+meets the premises of the idle theorems. -/
+def exRuns (n : Nat) : History := List.replicate n (WOp.run 0 [])
+def exQuiet : History :=
+  [WOp.mkpool (some 1) none none, WOp.on 0 [] (.apply 2 none Pool.gatedSpec)] ++ exRuns 3 ++
+  [WOp.on 0 [] (.gate 0 .ok)] ++ exRuns 4 ++ [WOp.on 0 [] (.gate 1 .ok)] ++ exRuns 3
+def exIdle : History :=
+  [WOp.mkpool (some 1) none none, WOp.on 0 [] (.apply 2 none Pool.gatedSpec)] ++ exRuns 3
+
+example : ((World.init 0).run exQuiet).ready = [] := List.eq_nil_of_length_eq_zero (by decide +kernel)
+example : (((World.init 0).run exQuiet).pools.map fun p => p.tasks.map fun k => k.outcome.isSome) = [[true, true]] := by
+  decide +kernel
+example : (((World.init 0).run exQuiet).pools.map fun p => p.reqs.map fun r => (r.outcome, r.created, r.everCancelled)) =
+    [[(some .ok, 2, false)]] := by decide +kernel
+example : (((World.init 0).run exQuiet).pools.map fun p => (p.sem.value, p.sem.waiters.length)) = [(.fin 1, 0)] := by
+  decide +kernel
+example : ((World.init 0).run exIdle).ready = [] := List.eq_nil_of_length_eq_zero (by decide +kernel)
+example : (((World.init 0).run exIdle).pools.map fun p => p.tasks.map fun k => (k.phase, k.fut, k.outcome.isSome)) =
+    [[(.inWorker, .pending, false)]] := by decide +kernel
+example : (((World.init 0).run exIdle).pools.map fun p =>
+    (p.reqs.map fun r => (r.outcome, r.frame), p.sem.waiters.map fun w => (w.owner, w.st), p.isFull, p.running.length)) =
+    [([(none, .waitRoom)], [(0, .pending)], true, 1)] := by decide +kernel
 
 end Taskpool
